@@ -1,16 +1,18 @@
 """C17 decoders are total on untrusted input."""
 from ..vlib import WIDTHS, tobytes, rand_value
 from .. import formats as F
+import struct
 
 BINS = ["ux_codec"]
-PIPE = {"hang_secs": 30, "neg_skip": ("pg_float4", "pg_float8", "pg_money", "der_anyref", "der_intref", "der_uintref")}
+PIPE = {"hang_secs": 30, "neg_skip": ("der_anyref", "der_intref", "der_uintref")}
 RULE = ("every decoder (alloy-rlp, fastrlp 0.3/0.4, rlp Uint+Bits, SCALE fixed+compact, SSZ, borsh Uint+Bits, DER from_der and "
         "the AnyRef/IntRef/UintRef conversions, serde_json, bincode, BigUint/BigInt, ark-ff BigInt, 17 postgres from_sql types) "
         "is run on EVERY generated input: for each width the valid encodings (every format) of boundary values with each "
         "single-field mutation (length byte +-1, long<->short length form, length-of-length +-1, declared length > remaining, "
         "prepended 00, excess high bits up to the next byte and limb boundary, truncation by 1..n, one appended byte, list bit, "
         "DER tag / negative, SCALE mode bits rotated, NUMERIC header fields -1/0/i16::MAX, BIT length header 0/1/-1/huge with "
-        "empty or short payload, JSON quote / prefix damage, JSONB version byte, empty input) plus random strings of length "
+        "empty or short payload and bit counts that disagree with the payload by one bit / one byte, FLOAT4/FLOAT8 images of ties, "
+        "range ends +-1 ulp, negatives, -0.0, subnormals, inf, NaN, MONEY -1/-99/-100/i64::MIN, JSON quote / prefix damage, JSONB version byte, empty input) plus random strings of length "
         "0..BYTES+16; widths incl. 60 and 250 (BYTES%8=0, BITS%64!=0) and non-multiples of 8; a case is one distinct "
         "(width, input)")
 
@@ -34,6 +36,59 @@ def mutations(enc):
         out.append([0] + list(enc))
         m = list(enc); m[0] ^= 0x40; out.append(m)       # RLP list bit / SCALE mode / DER class
         m = list(enc); m[0] = (m[0] & 0xfc) | ((m[0] + 1) & 3); out.append(m)   # SCALE mode bits rotated
+    return out
+
+
+def float_inputs(bits, rng):
+    """big-endian FLOAT4 / FLOAT8 images around the values that matter for from_sql (ties, range end, specials)."""
+    out = []
+    mx = (1 << bits) - 1
+    cands = [0.0, -0.0, 0.25, 0.49999999, 0.5, 0.75, 1.0, 1.5, 2.5, 3.5, -0.25, -0.5, -0.75, -1.0, 255.5, 256.5, 65535.5,
+             float(mx), float(mx) + 0.5, float(mx) + 1.0, float(mx >> 1), float(1 << bits), float(1 << bits) - 0.5,
+             float((1 << bits) * 2), 2.0 ** 24 - 1, 2.0 ** 24 + 2, 2.0 ** 53 - 1, 2.0 ** 53 + 2, 2.0 ** 63, 2.0 ** 64, 2.0 ** 127,
+             2.0 ** 128 if bits > 64 else 3.0, 1e30, 1e300, 5e-324, 1.1754944e-38, float("inf"), float("-inf"), float("nan")]
+    for _ in range(4):
+        v = rng.getrandbits(max(1, min(bits, rng.randrange(1, 70))))
+        cands += [float(v), float(v) + 0.5, float(v) - 0.5]
+    for f in cands:
+        try:
+            out.append(list(struct.pack(">d", f)))
+        except (OverflowError, struct.error):
+            pass
+        try:
+            out.append(list(struct.pack(">f", f)))
+        except (OverflowError, struct.error):
+            pass
+    # next-below / next-above patterns at the range end and at a tie
+    for f in (float(1 << bits), float(mx) + 0.5, 0.5, 2.5):
+        try:
+            d = struct.unpack(">Q", struct.pack(">d", f))[0]
+            out += [list(struct.pack(">Q", d - 1)), list(struct.pack(">Q", d + 1))]
+            w = struct.unpack(">I", struct.pack(">f", f))[0]
+            out += [list(struct.pack(">I", w - 1)), list(struct.pack(">I", w + 1))]
+        except (OverflowError, struct.error):
+            pass
+    out += [[0x7f, 0xf0, 0, 0, 0, 0, 0, 1], [0xff, 0xf8, 0, 0, 0, 0, 0, 0], [0x7f, 0xc0, 0, 0], [0x7f, 0x80, 0, 1], [0x80, 0, 0, 1]]
+    return out
+
+
+def money_inputs():
+    vals = [-1, -50, -99, -100, -101, -199, -200, -(1 << 63), -(1 << 63) + 1, 99, 100, 101, 199, (1 << 63) - 1, 12345]
+    return [list((v & ((1 << 64) - 1)).to_bytes(8, "big")) for v in vals]
+
+
+def bit_header_inputs(bits, rng):
+    """BIT / VARBIT images whose 4-byte bit-count header disagrees with the payload."""
+    out = []
+    nb = (bits + 7) // 8
+    for ln in {1, 7, 8, 9, bits, max(bits - 1, 0), bits + 1, bits + 8, max(bits - 8, 0), 8 * nb}:
+        hdr = list(ln.to_bytes(4, "big"))
+        k = (ln + 7) // 8
+        for pl in {0, max(k - 1, 0), k, k + 1, nb}:
+            if pl > nb + 8:
+                continue
+            out.append(hdr + [rng.getrandbits(8) | 1 for _ in range(pl)])
+            out.append(hdr + [0] * max(pl - 1, 0) + ([1 << (8 * k - ln) % 8] if pl else []))
     return out
 
 
@@ -79,6 +134,7 @@ def scenarios(tier, rng):
                    [ord(c) for c in '"'], [ord(c) for c in '"0x"'], [ord(c) for c in '0x'], [ord(c) for c in '"0xg"'], [ord(c) for c in '""'],
                    [ord(c) for c in '1e3'], [ord(c) for c in '-1'], [ord(c) for c in ' 12 '], [ord(c) for c in '"12'], [ord(c) for c in 'null'],
                    [ord(c) for c in '[1]'], [0xc3, 0xa9], [ord(c) for c in '"\\u0031"'], [2] + [ord(c) for c in '"0x1"'], [1]]
+        inputs += float_inputs(bits, rng) + money_inputs() + bit_header_inputs(bits, rng)
         for _ in range(40 if quick else 400):
             ln = rng.randrange(0, nb + 17)
             inputs.append([rng.getrandbits(8) for _ in range(ln)])
